@@ -10,7 +10,8 @@ EXTENDS Chain, Json, IOUtils
 
 Trace == ndJsonDeserialize(IOEnv.TRACE)
 
-VARIABLE l      \* next line of the trace to explain
+VARIABLES l,    \* next line of the trace to explain
+          rec   \* the last event if it was a crash image reopened in the middle of a call, else NoRec
 
 Ev == Trace[l]
 ToSet(s) == {s[i] : i \in 1..Len(s)}
@@ -28,7 +29,8 @@ Logged ==
   /\ ev' = Ev.st.ev
   /\ res'.err = Ev.st.err
 
-Step(A) == l <= Len(Trace) /\ A /\ l' = l + 1
+NoRec == [op |-> "none"]
+Step(A) == l <= Len(Trace) /\ A /\ l' = l + 1 /\ rec' = NoRec
 
 TReset    == Step(Ev.op = "reset" /\ TreeOK(Ev.tree) /\ Reset(Ev.tree, Ev.scheme) /\ Logged)
 TInsert   == Step(Ev.op = "InsertChain" /\ InsertChain(Ev.seg) /\ Logged)
@@ -37,10 +39,48 @@ TSetCanon == Step(Ev.op = "SetCanonical" /\ SetCanonical(Ev.b) /\ Logged)
 TSetHead  == Step(Ev.op = "SetHead" /\ SetHead(Ev.n) /\ Logged)
 TRestart  == Step(Ev.op = "Restart" /\ Restart /\ Logged)
 
+(* A copy of the key-value store taken after one of the writes of the call Ev.act was reopened *)
+(* with NewBlockChain (no clean shutdown): the specification stays in the state before the call *)
+(* and the recovered state is judged by the Rec* invariants below (property C39).              *)
+TCrashIn == l <= Len(Trace) /\ Ev.op = "CrashIn" /\ rec' = Ev /\ l' = l + 1 /\ UNCHANGED vars
+
 EmptyTree == [parent |-> <<>>, txs |-> <<>>, ntx |-> 0]
-TraceInit == InitWith(EmptyTree, "hash") /\ l = 1
-TraceNext == TReset \/ TInsert \/ TNoHead \/ TSetCanon \/ TSetHead \/ TRestart
-TraceSpec == TraceInit /\ [][TraceNext]_<<vars, l>>
+TraceInit == InitWith(EmptyTree, "hash") /\ l = 1 /\ rec = NoRec
+TraceNext == TReset \/ TInsert \/ TNoHead \/ TSetCanon \/ TSetHead \/ TRestart \/ TCrashIn
+TraceSpec == TraceInit /\ [][TraceNext]_<<vars, l, rec>>
+
+(* ---------------- recovered crash images (C39 on arbitrary trees, crash inside a call) -------- *)
+IsRec   == rec.op = "CrashIn"
+R       == rec.st
+RKnown  == ToSet(R.known)
+RHas    == ToSet(R.hasState) \cup {0}
+RC(n)   == IF n = 0 THEN 0 ELSE R.canon[n]
+RTop    == IF \E i \in 1..N : R.canon[i] # Nil THEN CHOOSE i \in 1..N : R.canon[i] # Nil /\ \A j \in 1..N : R.canon[j] # Nil => j <= i ELSE 0
+(* did the interrupted call (or an earlier one) write a head without reorg below the head header (C38-F1)? *)
+CallF1  == LET a == rec.act IN
+           CASE a.op = "InsertChain"  -> InsertChainF(Cur, a.seg).f1
+             [] a.op = "InsertNoHead" -> InsertNoHeadF(Cur, a.b).f1
+             [] a.op = "SetCanonical" -> SetCanonicalF(Cur, a.b).f1
+             [] OTHER -> FALSE
+RecWellFormed   == IsRec => R.hb \in Ids /\ R.hh \in Ids /\ R.hs \in Ids /\ \A i \in 1..N : R.canon[i] \in Ids \cup {Nil}
+RecHeadState    == IsRec => R.hb \in RHas
+RecHeadOrder    == IsRec => Num(R.hh) >= Num(R.hb) /\ R.hb \in Anc(R.hh)
+RecDataClosed   == IsRec => /\ \A b \in RKnown : Par(b) = 0 \/ Par(b) \in RKnown
+                            /\ \A i \in 1..N : R.canon[i] # Nil => R.canon[i] \in RKnown
+                            /\ {R.hb, R.hh, R.hs} \subseteq RKnown \cup {0}
+RecCanonHasHeads == IsRec => RC(Num(R.hb)) = R.hb /\ RC(Num(R.hh)) = R.hh
+RecCanonLinked  == IsRec => \A i \in 1..N : R.canon[i] # Nil => (Num(R.canon[i]) = i /\ Par(R.canon[i]) = RC(i - 1))
+RecCanonEndsAtHead == IsRec => RTop = Num(R.hh)
+RecCanonLinkedPending     == (IsRec /\ ~gh.f1 /\ ~CallF1) => RecCanonLinked
+RecCanonEndsAtHeadPending == (IsRec /\ ~gh.f1 /\ ~CallF1) => RecCanonEndsAtHead
+(* nothing that was stored before the interrupted call is lost (SetHead deletes on purpose) *)
+RecNoLoss       == (IsRec /\ rec.act.op # "SetHead") => known \subseteq RKnown
+(* a transaction resolved from the database sits in a block of the recovered canonical chain *)
+RecLookupSound  == (IsRec /\ ~gh.f1 /\ ~CallF1) =>
+                     \A t \in 1..NT : R.dresolve[t] # Nil =>
+                        LET b == R.dresolve[t] IN b \in Anc(R.hh) /\ RC(Num(b)) = b /\ t \in TxSet(b)
+(* importing the blocks up to the head of the node that did not crash reaches that head, its index and state *)
+RecHeals        == IsRec => rec.heal.err = "none" /\ rec.heal.hb = rec.heal.target /\ rec.heal.canonok /\ rec.heal.state
 
 TraceAccepted == TLCGet("stats").diameter - 1 = Len(Trace)
 =============================================================================
